@@ -12,6 +12,9 @@ namespace Mcp.Streams
 structure Facts where
   flushBeforeStore : Bool
   identityCheckOnExit : Bool
+  /-- the exit path marks the connection closed under its write lock, and writers check the mark under that lock
+      (otherwise a writer that looked the connection up before the exit writes to a finished response) -/
+  closedMarkOnExit : Bool := true
   deriving Repr, DecidableEq
 
 def Facts.good (f : Facts) : Bool := !f.flushBeforeStore && f.identityCheckOnExit
@@ -34,7 +37,9 @@ inductive Ev where
   | wake (n : Nat)
   | exit_ (n : Nat)
   | delete                   -- DELETE of the session: cleanupSession
-  | send (m : Nat)           -- SendNotification / SendRequest addressed to the session
+  | send (m : Nat)           -- SendNotification / SendRequest addressed to the session (lookup and write back to back)
+  | sendBegin (m : Nat)      -- …the table lookup of a send
+  | sendEnd (m : Nat)        -- …its write on the connection it found
   deriving Repr, DecidableEq
 
 structure St where
@@ -42,6 +47,8 @@ structure St where
   table : Option Nat := none
   delivered : List (Nat × Nat) := []    -- (stream, message)
   failed : List Nat := []               -- messages whose send returned "session not found"
+  inflight : List (Nat × Nat) := []     -- (message, connection found by the lookup) of sends between lookup and write
+  crashed : List Nat := []              -- messages whose write hit a response whose handler had already returned (panic)
   dead : Bool := false                  -- the session was terminated (DELETE): a GET that has not yet passed the session lookup gets 404
 
 def upd (f : Nat → H) (i : Nat) (v : H) : Nat → H := fun j => if j = i then v else f j
@@ -85,6 +92,20 @@ def step (f : Facts) (s : St) : Ev → Option St
     match s.table with
     | some c => some { s with delivered := s.delivered ++ [(c, m)] }
     | none => some { s with failed := s.failed ++ [m] }
+  | .sendBegin m =>
+    if s.inflight.any (·.1 == m) then none else
+    match s.table with
+    | some c => some { s with inflight := s.inflight ++ [(m, c)] }
+    | none => some { s with failed := s.failed ++ [m] }
+  | .sendEnd m =>
+    match s.inflight.find? (·.1 == m) with
+    | none => none
+    | some (_, c) =>
+      let rest := s.inflight.filter (·.1 != m)
+      if (s.hs c).exited then
+        if f.closedMarkOnExit then some { s with inflight := rest, failed := s.failed ++ [m] }
+        else some { s with inflight := rest, crashed := s.crashed ++ [m] }
+      else some { s with inflight := rest, delivered := s.delivered ++ [(c, m)] }
 
 def run (f : Facts) : St → List Ev → Option St
   | s, [] => some s
